@@ -320,7 +320,7 @@ static void runConfig(Ctx& c, Rng& rng, const char* kind, unsigned n, const char
 					long live0 = ec().live;
 					try { T.c.Add(static_cast<const Key&>(key), static_cast<const V&>(val)); out = "1"; ref[k].push_back(v); }
 					catch (const std::bad_alloc&) { out = "E:throw"; }
-					catch (const std::runtime_error&) { out = "E:throw"; }
+					catch (const std::runtime_error& e) { out = std::string(e.what()) == "copy" ? "E:throw" : "E:runtime"; }	// E:runtime = the key table is full
 					catch (const std::domain_error&) { out = "E:user"; }
 					bool firedG = lm().refused(growSize) && !present, firedP = tableEmpty && lm().refused(psz) && psz != growSize && !present;
 					bool firedOther = false; for (size_t x : lm().refusedSizes) if (!(firedG && x == growSize) && !(firedP && x == psz)) firedOther = true;
@@ -376,7 +376,7 @@ static void runConfig(Ctx& c, Rng& rng, const char* kind, unsigned n, const char
 					Key key(k);
 					size_t kc0 = X.c.GetKeyCount();
 					try { X.c.InsertKey(static_cast<const Key&>(key)); out = X.c.GetKeyCount() != kc0 ? "1" : "0"; if (out == "1") refA[k]; }
-					catch (const std::bad_alloc&) { out = "E:throw"; } catch (const std::runtime_error&) { out = "E:throw"; } catch (const std::domain_error&) { out = "E:user"; }
+					catch (const std::bad_alloc&) { out = "E:throw"; } catch (const std::runtime_error& e) { out = std::string(e.what()) == "copy" ? "E:throw" : "E:runtime"; } catch (const std::domain_error&) { out = "E:user"; }
 				}
 				bool firedG = lm().refused(growSize) && !present, firedP = tableEmpty && lm().refused(psz) && psz != growSize && !present;
 				if (out == "E:user") toks += " fe";
